@@ -14,7 +14,7 @@ from hypothesis import strategies as st
 
 from .world import enc
 
-ENT_CLASSES = ["Ent", "Ent", "Ent", "EntSub", "EntSubSub", "EntPlain", "EntV", "EntV"]
+ENT_CLASSES = ["Ent", "Ent", "Ent", "EntSub", "EntSubSub", "EntPlain", "EntV", "EntV", "EntKw"]
 
 PROFILES = {
     "clean": dict(ints=[1, 2, 3], strs=["x", "xy", "y"], tag_len=(1, 3), kids_len=(1, 3),
@@ -99,7 +99,7 @@ class Ctx:
     def __init__(self, cfg: Cfg, recs: List[dict], nvars: int):
         self.cfg = cfg
         self.P = PROFILES[cfg.profile]
-        ents = [r for r in recs if r.get("cls", "Ent") in ("Ent", "EntSub", "EntSubSub", "EntPlain", "EntV")]
+        ents = [r for r in recs if r.get("cls", "Ent") in ("Ent", "EntKw", "EntSub", "EntSubSub", "EntPlain", "EntV")]
         self.min_tags = min((len(r["tags"]) for r in ents), default=0)
         self.min_kids = min((len(r["kids"]) for r in ents), default=0)
         self.nvars = nvars
@@ -277,18 +277,18 @@ def cond_tree(draw, ctx: Ctx, depth: int, under_not: bool = False):
     return [k, form, kids]
 
 
-def template_cond(draw, ctx: Ctx):
+def template_cond(draw, ctx: Ctx, force=None):
     """Weighted shape templates for the shapes the anchors single out."""
     cfg = ctx.cfg
     n = ctx.nvars
     T = ["free", "free", "free"]
     if n >= 2:
-        T += ["and_right_diffvar_or", "and_two_ors", "or_overlap", "subset_only", "and_independent"]
+        T += ["and_right_diffvar_or", "and_two_ors", "or_overlap", "subset_only", "and_independent", "filter_then_join"]
     if n >= 3:
         T += ["indep_and_or3", "indep_and_or3", "indep_and_join3"]
     T += ["same_var_or", "not_over_and", "not_over_or", "and_of_ors_samevar"] if cfg.allow_not else \
         ["same_var_or", "and_of_ors_samevar"]
-    t = draw(st.sampled_from(T))
+    t = force or draw(st.sampled_from(T))
     f = lambda: draw(st.sampled_from(cfg.and_forms))
     if t == "free":
         return cond_tree(draw, ctx, draw(st.integers(0, cfg.max_depth)))
@@ -299,6 +299,18 @@ def template_cond(draw, ctx: Ctx):
         o1 = leaf(draw, ctx, [y])
         o2 = leaf(draw, ctx, [x, y]) if draw(st.booleans()) else leaf(draw, ctx, [x])
         return ["and", f(), [a, ["or", f(), [o1, o2]]]]
+    if t == "filter_then_join":
+        # one operand binds x, the other relates x to y through a low-cardinality attribute: a one-to-many join whose
+        # groups of partners an abandoned evaluation can be stopped in the middle of
+        x, y = (draw(st.permutations(list(range(n)))))[:2]
+        at = draw(st.sampled_from(["a", "b"]))
+        rel = draw(st.sampled_from([["cmp", "==", ["attr", ["var", y], at], ["attr", ["var", x], at]],
+                                    ["cmp", "!=", ["var", x], ["var", y]],
+                                    ["cmp", "<=", ["attr", ["var", x], at], ["attr", ["var", y], at]]]))
+        parts = [leaf(draw, ctx, [x]), rel]
+        if chance(draw, 1, 4):
+            parts.reverse()
+        return ["and", f(), parts]
     if t == "and_independent":
         x, y = (draw(st.permutations(list(range(n)))))[:2]
         return ["and", f(), [leaf(draw, ctx, [x]), leaf(draw, ctx, [y])]]
@@ -397,6 +409,8 @@ def query_case(draw, cfg: Cfg):
     case = {"ents": recs, "doms": doms, "vars": vars_, "cond": cond,
             "dom_kind": draw(st.sampled_from(cfg.dom_kinds)),
             "split_top": draw(st.booleans()), "quant": cfg.quant}
+    if chance(draw, 1, 4):
+        case["share_terms"] = True      # equal mapping terms are ONE expression object (f = x.a used several times)
     # selection
     if cfg.select == "first" or nvars == 1 and not cfg.value_terms_in_select:
         sel_vars = [0] if cfg.select == "first" else [0]
